@@ -4,7 +4,7 @@
   as pure functions of the state. They follow the Go code's access path (index keys → queue bucket → entry filter),
   not the specification; `AllianceProps/C20.lean` relates them to the filter specification.
 -/
-import AllianceModel.Keeper
+import AllianceModel.EndBlock
 namespace Alliance
 open Dec
 
@@ -56,5 +56,33 @@ def qDelegation (w : World) (del : Acct) (v : ValId) (d : Denom) : Except Err (D
         match delegationTokensWithShares dl.shares info a with
         | .ok b => .ok (dl.shares, b)
         | .error e => .error e
+
+/-- contract binding `GetDelegation`: the balance only; a MISSING delegation is an error here (the gRPC query reports
+    zero), the validator is looked up after the asset -/
+def bDelegation (w : World) (del : Acct) (v : ValId) (d : Denom) : Except Err Int :=
+  match getDelegation w del v d with
+  | none => .error (.err "no_delegation")
+  | some dl =>
+    match getAsset w d with
+    | none => .error (.err "unknown_asset")
+    | some a =>
+      match AL.get w.staking.vals v with
+      | none => .error (.err "no_validator")
+      | some _ =>
+        let info := (AL.get w.vals v).getD ValInfo.empty
+        delegationTokensWithShares dl.shares info a
+
+/-! ## custom/bank/keeper: supply queries report the staking-denom supply net of the alliance-bonded amount -/
+
+/-- `Query/SupplyOf` -/
+def qSupplyOf (w : World) (d : Denom) : Int :=
+  if d = w.staking.bondDenom then supplyOf w d - allianceBondedAmount w else supplyOf w d
+
+/-- `Query/TotalSupply`: the bond-denom row is reduced when it is positive; zero rows are not listed -/
+def qTotalSupply (w : World) : List (Denom × Int) :=
+  let bond := w.staking.bondDenom
+  let rows := w.supply.filter (fun p => p.2 ≠ 0)
+  let rows := if supplyOf w bond > 0 then rows.map (fun p => if p.1 = bond then (p.1, p.2 - allianceBondedAmount w) else p) else rows
+  rows.filter (fun p => p.2 ≠ 0)
 
 end Alliance
